@@ -84,13 +84,36 @@ def dispatchDisk : List String → Option (Obs × Option Obs)
     let entries := parseEntries ents
     let lookup : Bytes → DirSpec := fun _ => if dirok = "1" then some entries else none
     let names := (entries.filter nonDir).map (·.name)
+    -- specification side, completeness: the visible files <basename><frame number><ext> of the
+    -- directory; a claim is made when they share one digit width, every number fits an int and
+    -- none is a negative zero, and the lookup is not strict (`none` = no claim)
+    let claim : Option (List Bytes) :=
+      if dirok != "1" || entries.any (fun e => e.kind == .dangling) || strict = "1" ||
+         mixedShapes (entries.map (·.name)) then none else
+      match Seq.parse st pat with
+      | .error _ => some []
+      | .ok f =>
+        let cands : List (Bytes × Bytes) := names.filterMap fun n =>
+          if isPrefixOf ['.'] n then none
+          else if isPrefixOf f.base n && isSuffixOf f.ext n && f.base.length + f.ext.length ≤ n.length then
+            let tk := (n.drop f.base.length).take (n.length - f.base.length - f.ext.length)
+            if (frameAt tk).map (·.2) == some [] then some (tk, f.dir ++ n) else none
+          else none
+        let odd := cands.any fun c =>
+          (atoi c.1).isNone || (match c.1 with | '-' :: zs => zs.all (· = '0') | _ => false)
+        if odd || (cands.map (·.1.length)).eraseDups.length > 1 || cands.length > 3000 then none
+        else some (cands.map (·.2))
+    let allS : Obs := match claim with
+      | some [] => [("all", "-")]
+      | some l => [("all", hexList (sortBytes l))]
+      | none => []
     match findSequenceOnDisk lookup pat st (strict = "1") false with
     | .error _ => some ([("err", "err")], some (if dirok = "1" ∧ !entries.any (fun e => e.kind == .dangling) then [] else [("err", "err")]))
     | .ok none =>
       -- whatever the implementation returns instead must still be made of existing files of the
       -- pattern's basename / extension (vacuously true for "nothing")
-      some ([("err", "ok"), ("found", "0"), ("be", "1"), ("exist", "1"), ("strictok", "1"), ("again", "1")],
-            some [("err", "ok"), ("be", "1"), ("exist", "1"), ("strictok", "1"), ("again", "1")])
+      some ([("err", "ok"), ("found", "0"), ("be", "1"), ("exist", "1"), ("strictok", "1"), ("again", "1"), ("all", "-")],
+            some ([("err", "ok"), ("be", "1"), ("exist", "1"), ("strictok", "1"), ("again", "1")] ++ allS))
     | .ok (some s) =>
       let ps := s.paths
       let pdir := match Seq.parse st pat with | .ok f => f.dir | .error _ => []
@@ -114,8 +137,9 @@ def dispatchDisk : List String → Option (Obs × Option Obs)
               (match Seq.parse st pat with
                | .ok f => f.pad.isEmpty || s.zfill == f.zfill
                | .error _ => true))),
-          ("again", "1") ]
-      some (m, some ([("err", "ok"), ("be", "1"), ("exist", "1"), ("strictok", "1"), ("again", "1")] ++ (if negz then [("~negzero", "1")] else [])))
+          ("again", "1") ] ++
+        (if mixed then [] else [("all", if s.len ≤ 3000 then hexList (sortBytes ps) else "big")])
+      some (m, some ([("err", "ok"), ("be", "1"), ("exist", "1"), ("strictok", "1"), ("again", "1")] ++ allS ++ (if negz then [("~negzero", "1")] else [])))
   | _ => none
 
 end Gfs.Ops
